@@ -28,4 +28,5 @@ let table : (string * (BinNums.coq_N list -> BinNums.coq_N list)) list = [
   ("chk_c04", PkCorr.chk_c04);
   ("mon_c01", MonDuo.mon_c01);
   ("chk_duo", MonDuo.chk_duo);
+  ("mon_c09", MonGate.mon_c09);
 ]
